@@ -9,9 +9,12 @@ if grep -rnE '\b(Admitted|admit|Axiom|Parameter|Conjecture|Admit Obligations)\b|
 fi
 SCR=$(mktemp -d /var/tmp/verif-setup-XXXXXX)
 trap 'rm -rf "$SCR"' EXIT
-cp /repo/go.sum harness/go.sum
-(cd harness && go build -tags verif -o "$SCR/vh" .)
-"$SCR/vh" dump "$SCR"
+REPO=${VERIF_REPO:-/repo}
+cp -r harness "$SCR/harness"
+sed -i "s#=> /repo#=> $REPO#" "$SCR/harness/go.mod"
+cp "$REPO/go.sum" "$SCR/harness/go.sum"
+(cd "$SCR/harness" && VERIF_REPO=$REPO go build -tags verif -o "$SCR/vh" .)
+VERIF_REPO=$REPO "$SCR/vh" dump "$SCR"
 python3 tools/gen_tables.py "$SCR/tables.json" coq/gen
 (cd coq && coq_makefile -f _CoqProject -o Makefile >/dev/null && timeout 3000 make -j16)
 (cd ocaml && coqc -Q ../coq WI -w -notation-overridden,-ambiguous-paths ../coq/Extract.v && ocamlfind ocamlopt -O3 -w -a model.mli model.ml driver.ml -o modelrun)
